@@ -89,6 +89,10 @@ def run_script(drv, cmds, metas, spool_parent, keep_spool=False, mode='root', pr
             e['replies'] = [[m.group(1), int(m.group(2))] for m in REPLY_RE.finditer(e.get('reply', ''))]
             e['nfooter'] = e.get('reply', '').count('END:VCALENDAR')
             e.pop('reply', None)
+        elif e['e'] == 'Refused':
+            # the connection table was full: that request was never read
+            if e.get('kind') == 'Req': k += 1
+            else: hk += 1
         elif e['e'] == 'Http':
             if hk < len(hi): e.update(hi[hk]); hk += 1
             body = e.get('reply', '')
@@ -235,8 +239,11 @@ def map_script(rnd, uidpool, peers=(1000, 1001, 1002, 0, 4242), nreq=8, listy=Fa
     (GET /queue brings the queue file up to date on demand - the listing must show the tasks as last accepted, not as last saved)"""
     cmds, metas = [], {}
     FAR = 5000
+    crowd = rnd.random() < 0.12     # other peers keep connections open meanwhile (the table has 64 slots, searched in two halves)
+    if crowd: cmds.append('CO\t%d' % rnd.choice([30, 31, 32, 33, 40, 62, 63]))
     for _ in range(nreq):
         x = rnd.random(); p = rnd.choice(peers)
+        if crowd and rnd.random() < 0.3: cmds.append(rnd.choice(['CC\t%d' % rnd.randint(0, 63), 'CO\t1', 'CO\t1', 'CO\t2']))
         if listy: x = x * 0.75 / 0.5 if x < 0.5 else (0.86 + (x - 0.5) * 0.2 if x < 0.95 else 0.97)     # 33 % adds, 17 % cancels, 45 % /queue, 5 % other
         if listy and rnd.random() < 0.08: cmds.append('K')                                             # the minutely checkpoint timer comes due now and then
         if x < 0.55:
@@ -265,6 +272,18 @@ def map_script(rnd, uidpool, peers=(1000, 1001, 1002, 0, 4242), nreq=8, listy=Fa
             if p == 0: continue
             metas[len(cmds)] = {'what': 'other'}; cmds.append('H\t%d\tGET /u/%d/%s HTTP/1.1' % (p, q, rnd.choice(['sched', 'queue'])))
     return cmds, metas
+
+
+def table_script(rnd):
+    """nothing but connections coming and going, up to and beyond the 64 the table holds"""
+    cmds = []; n = 0
+    for _ in range(rnd.randint(3, 12)):
+        if rnd.random() < 0.65:
+            k = rnd.choice([1, 2, 5, 16, 31, 32, 33, 64, 65]); cmds.append('CO\t%d' % k); n = min(64, n + k)
+        else:
+            for _ in range(rnd.choice([1, 1, 3, 10, 40])):
+                if n: cmds.append('CC\t%d' % rnd.randint(0, 63)); n -= 1
+    return cmds, {}
 
 
 # ------------------------------------------------------------------ C06: crash / fault enumeration around checkpoints
